@@ -35,6 +35,7 @@ REJECTIONS = {
     'bad-cast-pytype:channel': {'t': 'channel', 'cast_raw': 'pyfloat', 'attrs': {}},
     'bad-origin-ref:zone': {'t': 'zone', 'oref': 'seven', 'attrs': {}},
     'name-type:zone': {'t': 'zone', 'name_raw': 5, 'attrs': {}},
+    'name-type:origin': {'t': 'origin', 'name_raw': 5, 'attrs': {}},
     'dup-dataset:channel': {'t': 'channel', 'dsname': '$EXISTING', 'attrs': {}},
     'non-ndarray-data:channel': {'t': 'channel', 'data_raw': [1, 2, 3], 'attrs': {}},
     'fraction-int:origin-like': {'t': 'axis', 'attrs': {'coordinates': {'v': [{'$ref': 'channel'}], 'r': 'kw'}}},
@@ -78,7 +79,7 @@ def histories(draw, first=None):
             pos = draw(st.integers(0, len(ops)))
         if draw(st.integers(0, 2)) == 0:
             bad['set'] = 'SET-ONLY-THE-REJECTED-CALL-USES'     # the rejected call is the only one to touch this set
-        if nb == 0 and first == 'wrong-type-value:origin' and draw(st.booleans()):
+        if nb == 0 and first in ('wrong-type-value:origin', 'name-type:origin') and draw(st.booleans()):
             pos = 0                 # the very first call of the history (see the arrangement of the origin sets below)
             bad['set'] = 'S1'
             bad['front'] = True
@@ -227,7 +228,7 @@ class C20(Property):
     id = 'C20'
     number = 20
     technique = ("model-based testing of call histories with rejected calls: Hypothesis inserts 1-3 calls that must be "
-                 "rejected (26 kinds, before and after the object registers with its set) into valid add_* sequences, "
+                 "rejected (27 kinds, before and after the object registers with its set) into valid add_* sequences, "
                  "preferably before a valid call of the same type and name; the file written afterwards must be "
                  "byte-identical to the one a fresh process writes for the history without the rejected calls. Second "
                  "family: a write that raises, the cause removed through the public API, write again vs. fresh process")
